@@ -107,6 +107,15 @@ def mentions_unguarded(stmts, attr):
     for s in stmts:
         if isinstance(s, ast.If):
             t = s.test
+            # `if self.<attr> is None: ...; return` (no else): everything after it runs only when the value is
+            # not None, so it is guarded; the body itself must not compute with the attribute
+            early = (isinstance(t, ast.Compare) and len(t.ops) == 1 and isinstance(t.ops[0], ast.Is)
+                     and self_attr(t.left, attr) and isinstance(t.comparators[0], ast.Constant)
+                     and t.comparators[0].value is None and not s.orelse and s.body
+                     and isinstance(s.body[-1], ast.Return) and s.body[-1].value is None)
+            if early:
+                return any(self_attr(n, attr) and isinstance(n.ctx, ast.Load)
+                           for q in s.body for n in ast.walk(q))
             guarded = (isinstance(t, ast.Compare) and len(t.ops) == 1 and isinstance(t.ops[0], ast.IsNot)
                        and self_attr(t.left, attr) and isinstance(t.comparators[0], ast.Constant)
                        and t.comparators[0].value is None)
